@@ -371,6 +371,76 @@ func (m c13) evalSession(c *core.Ctx, frags []string, disableAt int, name string
 	}
 }
 
+// declaredSession: the script itself declares a variable named like a builtin; the host disables that builtin (for the
+// first time, or again) after the declaring fragment ran. Every fragment must behave exactly as in the same session
+// without any DisableBuiltin call: the property exempts names the script declared.
+func (m c13) declaredSession(c *core.Ctx, frags []string, name string, disableAt int, pre bool) {
+	type res struct{ val, err string }
+	runSession := func(disable bool) (out []res, pan string) {
+		st := ugo.NewSymbolTable()
+		if disable && pre {
+			st.DisableBuiltin(name)
+		}
+		rec := &canon.Recorder{}
+		g := ugo.Map{"L": rec.Func(), "G": ugo.Int(3), name: &ugo.Function{Name: "host-" + name, Value: func(...ugo.Object) (ugo.Object, error) { return ugo.Int(47), nil }}}
+		ev := ugo.NewEval(ugo.CompilerOptions{SymbolTable: st}, g)
+		for i, fr := range frags {
+			if disable && i == disableAt {
+				st.DisableBuiltin(name)
+			}
+			var r res
+			func() {
+				defer func() {
+					if x := recover(); x != nil {
+						pan = fmt.Sprint(x)
+					}
+				}()
+				v, _, err := ev.Run(context.Background(), []byte(fr))
+				if err != nil {
+					r.err = err.Error()
+				} else {
+					r.val = canon.Value(v)
+				}
+			}()
+			if pan != "" {
+				return
+			}
+			out = append(out, r)
+		}
+		return
+	}
+	c.Count("declared_sessions")
+	want, p1 := runSession(false)
+	got, p2 := runSession(true)
+	wit := c13wit{Disabled: []string{name}, Frags: frags, Why: fmt.Sprintf("declared-session disableAt=%d pre=%v", disableAt, pre), Opt: true}
+	if p1 != "" || p2 != "" {
+		c.Violation("C13|eval-panic", "Eval panics: "+p1+p2, wit)
+		return
+	}
+	for i := range want {
+		if want[i].err != "" {
+			c.Count("declared_session_fragment_error_in_baseline")
+		}
+		if got[i] != want[i] {
+			wit.Why += fmt.Sprintf(" fragment %d: without DisableBuiltin {%s %s}, with {%s %s}", i, want[i].val, want[i].err, got[i].val, got[i].err)
+			c.Violation("C13|declared-name-affected|"+name, "a variable the script declared stops working after DisableBuiltin of the same name: fragment "+frags[i]+" gives "+got[i].val+got[i].err+" instead of "+want[i].val+want[i].err, wit)
+			return
+		}
+		c.Count("declared_session_fragments_equal")
+	}
+}
+
+func c13declForms(name string) []string {
+	return []string{
+		name + " := func(...s) { return 42 }",
+		"var " + name + " = func(...s) { return 43 }",
+		"const " + name + " = func(...s) { return 44 }",
+		name + ", q := [func(...s) { return 45 }, 1]",
+		"global " + name,
+		"var (\n  q = 1\n  " + name + " = func(...s) { return 46 }\n)",
+	}
+}
+
 func (m c13) Run(c *core.Ctx) {
 	c13wrapBuiltins()
 	all := c13allNames()
@@ -402,6 +472,26 @@ func (m c13) Run(c *core.Ctx) {
 			}
 			m.evalSession(c, frags, at, evalNames[si])
 			c.Nontrivial(fmt.Sprintf("eval%d@%d", si, at))
+		}
+	}
+	for _, name := range []string{"len", "string", "int", "typeName", "append", "error"} {
+		for di, d := range c13declForms(name) {
+			frags := []string{"global L\na := [1, 2, 3]", d, "r1 := " + name + "(a)", "f := func() { return " + name + "(\"zz\") }\nf()", "g := func() { return func() { return " + name + "(1) } }\n[r1, " + name + "(1), g()()]"}
+			for at := 2; at <= len(frags); at++ {
+				for _, pre := range []bool{false, true} {
+					idx++
+					if idx%c.NBatch != c.Batch {
+						continue
+					}
+					if !c.Begin(func() string {
+						return fmt.Sprintf("declared session %s form %d disable at %d pre=%v", name, di, at, pre)
+					}) {
+						continue
+					}
+					m.declaredSession(c, frags, name, at, pre)
+					c.Nontrivial(fmt.Sprintf("decl-%s-%d-%d-%v", name, di, at, pre))
+				}
+			}
 		}
 	}
 	// fixed probes: shadowing and module cases
